@@ -4,6 +4,7 @@ package props
 
 import (
 	"fmt"
+	"io"
 	"math/rand/v2"
 	"os"
 	"path/filepath"
@@ -29,6 +30,9 @@ type c19ConcParams struct {
 	Rounds     int    `json:"rounds"`
 	GOMAXPROCS int    `json:"gomaxprocs"`
 	Salt       uint64 `json:"salt,omitempty"` // replay: PRNG salt of the failing round
+	// CloseMid: every goroutine creates its last transaction, then the WAF is closed (experimental.WAFCloser) while
+	// half of them finish concurrently with Close and the other half strictly after it. Odd rounds always do this.
+	CloseMid bool `json:"close_mid,omitempty"`
 }
 
 func c19ConcPlan(tier fw.Tier, seed int64) []c19ConcParams {
@@ -64,6 +68,7 @@ type c19ConcTx struct {
 	Expect  int // records expected
 	Fired   []int
 	Panic   *fw.PanicInfo
+	AtClose string // "" | "during" (finished while WAF.Close ran) | "after" (created before, finished after WAF.Close)
 	caseRef *c19Case
 }
 
@@ -139,13 +144,27 @@ func c19ConcRound(w *fw.W, p *c19ConcParams, round int, salt uint64) {
 		return
 	}
 	defer sl.CloseWAF(waf)
+	closeMid := p.CloseMid || round%2 == 1
 	rp := *p
-	rp.Salt, rp.Rounds = salt, 1
+	rp.Salt, rp.Rounds, rp.CloseMid = salt, 1, closeMid
 	vcase := map[string]any{"table": "concurrent", "conc": rp, "config": text}
 
 	txs := make([][]*c19ConcTx, p.Goroutines)
-	var wg sync.WaitGroup
+	var wg, inflight sync.WaitGroup
 	start := make(chan struct{})
+	allCreated, closed := make(chan struct{}), make(chan struct{})
+	var closeErr error
+	if closeMid {
+		inflight.Add(p.Goroutines)
+		go func() {
+			inflight.Wait() // every goroutine holds one created, unfinished transaction
+			close(allCreated)
+			if cl, ok := waf.(io.Closer); ok {
+				closeErr = cl.Close()
+			}
+			close(closed)
+		}()
+	}
 	for g := 0; g < p.Goroutines; g++ {
 		wg.Add(1)
 		go func(g int) {
@@ -160,15 +179,39 @@ func c19ConcRound(w *fw.W, p *c19ConcParams, round int, salt uint64) {
 				t := &c19ConcTx{ID: fmt.Sprintf("c19c-%d-%d-%d-%d", w.Batch.Index, round, g, i), IP: fmt.Sprintf("10.%d.%d.%d", 100+g, i/200, 1+i%200), Status: c.RespStatus, caseRef: &c}
 				t.URI = "/c19c/" + t.ID
 				t.Expect = c.expect(nil).Records
+				var mid func()
+				reached := false
+				if closeMid && i == p.PerG-1 {
+					t.AtClose = []string{"after", "during"}[g%2]
+					mid = func() {
+						reached = true
+						inflight.Done()
+						if g%2 == 0 {
+							<-closed // NewTransaction -> WAF.Close -> finish
+						} else {
+							<-allCreated // finish while WAF.Close is running
+						}
+					}
+				}
 				t.Panic = fw.Guard(func() {
-					t.Fired, _, _ = c19RunTx(waf, &c, t.ID, t.URI, t.IP)
+					t.Fired, _, _ = c19RunTx(waf, &c, t.ID, t.URI, t.IP, mid)
 				})
+				if mid != nil && !reached {
+					inflight.Done()
+				}
 				txs[g] = append(txs[g], t)
 			}
 		}(g)
 	}
 	close(start)
 	wg.Wait()
+	if closeMid {
+		<-closed
+		w.Count("waf_closed_with_transactions_in_flight", 1)
+		if closeErr != nil {
+			w.Cover("waf_close_errors", closeErr.Error())
+		}
+	}
 
 	// ---- producer side: finished ids with audit expected
 	byID := map[string]*c19ConcTx{}
@@ -179,6 +222,10 @@ func c19ConcRound(w *fw.W, p *c19ConcParams, round int, salt uint64) {
 			byID[t.ID] = t
 			w.Eval(1)
 			w.Count("concurrent_transactions", 1)
+			if t.AtClose != "" {
+				w.Count("close_inflight_transactions", 1)
+				w.Count("close_inflight_"+t.AtClose, 1)
+			}
 			if t.Panic != nil {
 				w.Violation("panic:concurrent:"+strings.ToLower(p.Format)+":"+t.Panic.Frame, "recover", vcase, nil, t, t.Panic.Value+"\n"+t.Panic.Stack)
 				continue
@@ -271,7 +318,12 @@ func c19ConcRound(w *fw.W, p *c19ConcParams, round int, salt uint64) {
 	for id, n := range wantIDs {
 		switch g := gotIDs[id]; {
 		case g == 0:
-			w.Violation("concurrent:lost-record", "exactly-once", vcase, n, map[string]any{"tx": id, "records": g, "writer": p.Writer}, "finished transaction with audit expected has no record")
+			cls, det := "concurrent:lost-record", "finished transaction with audit expected has no record"
+			if t := byID[id]; t != nil && t.AtClose != "" {
+				cls += ":inflight-at-waf-close"
+				det += " (transaction created before WAF.Close, finished " + t.AtClose + " it)"
+			}
+			w.Violation(cls, "exactly-once", vcase, n, map[string]any{"tx": id, "records": g, "writer": p.Writer}, det)
 		case g > n:
 			w.Violation("concurrent:duplicate-record", "exactly-once", vcase, n, map[string]any{"tx": id, "records": g, "writer": p.Writer}, "more than one record for a transaction")
 		}
@@ -354,6 +406,9 @@ func c19JudgeIndex(w *fw.W, vcase any, indexFile string, byID map[string]*c19Con
 	for id, n := range wantIDs {
 		if seen[id] != n {
 			cls := "concurrent:index-lost-entry"
+			if t := byID[id]; t != nil && t.AtClose != "" && seen[id] < n {
+				cls += ":inflight-at-waf-close"
+			}
 			if seen[id] > n {
 				cls = "concurrent:index-duplicate-entry"
 			}
@@ -365,5 +420,5 @@ func c19JudgeIndex(w *fw.W, vcase any, indexFile string, byID map[string]*c19Con
 func c19Finish(d *fw.D) {
 	// exactly-once is decided per round inside the workers (each round owns its files); the driver only
 	// reports the size of the enumerated tables so that table_cells can be compared with it.
-	d.Count("table_cells_planned", c19Product(c19DecisionDims())+c19Product(c19ContentDims())+c19Product(c19PartsDims())+c19Product(c19LateDims()))
+	d.Count("table_cells_planned", c19Product(c19DecisionDims())+c19Product(c19ContentDims())+c19Product(c19PartsDims())+c19Product(c19LateDims())+c19Product(c19MultiDims()))
 }
